@@ -128,6 +128,7 @@ def run(c, a):
         for i, s in enumerate(scheds):
             s["id"] = "s%d" % i
             s["burst"] = 3 + i % 3
+            s["bg"] = i % 2 == 1          # every other schedule also has background calls racing with the changes
         c.coverage["behaviour_sets"] = sets
     binpath = c.go_test_build("transport/mux", HARNESS, name="clientconn")
     nshard = min(NCPU, max(1, len(scheds) // 20))
@@ -185,7 +186,7 @@ def run(c, a):
         arr, killed = {}, set()
         for e in r:
             if e["ev"] == "RpcEnd":
-                k = e["code"] + ("/held" if e["r"].startswith("g") else "/burst")
+                k = e["code"] + {"g": "/held", "b": "/burst", "c": "/racing"}[e["r"][0]]
                 codes[k] = codes.get(k, 0) + 1
                 if e["code"] == "Unavailable" and arr.get(e["r"]) in killed:
                     inflight_killed += 1
